@@ -62,20 +62,28 @@ func (p *pp) Print(args ...interface{}) {
 	defer p.buf.SetMode(p.buf.GetMode())
 	np := newPrinter()
 	np.buf = p.buf
+	// Take the buffer back even if a (nested) panic propagates out of
+	// the nested printer and is caught further up: p.buf is stale
+	// after np has appended to it.
+	defer func() {
+		p.buf = np.buf
+		np.buf = buffer{}
+		np.free()
+	}()
 	np.doPrint(args)
-	p.buf = np.buf
-	np.buf = buffer{}
-	np.free()
 }
 
 func (p *pp) Printf(format string, arg ...interface{}) {
 	defer p.buf.SetMode(p.buf.GetMode())
 	np := newPrinter()
 	np.buf = p.buf
+	// See the comment in Print.
+	defer func() {
+		p.buf = np.buf
+		np.buf = buffer{}
+		np.free()
+	}()
 	np.doPrintf(format, arg)
-	p.buf = np.buf
-	np.buf = buffer{}
-	np.free()
 }
 
 func (p *pp) UnsafeString(s string) {
